@@ -41,6 +41,11 @@ pub const FAULT_CLASSES: &[&str] = &[
     "print_too_few_arguments", "print_too_many_arguments", "print_no_placeholder_with_argument",
     "divide_by_zero", "remainder_by_zero", "min_divided_by_minus_one",
     "call_method_on_function_result_null", "assign_unknown_variable",
+    // the same operation succeeded just before: a cache or memo keyed too coarsely would skip the check the second time
+    "arity_function_few_after_correct_call", "arity_function_many_after_correct_call", "arity_method_after_correct_call",
+    "index_too_large_after_valid_access", "unknown_method_after_known_method", "unknown_field_after_known_field",
+    "divide_by_zero_after_valid_division", "operand_kind_after_valid_operation", "unknown_function_after_known_function",
+    "builtin_arity_after_valid_call", "size_negative_after_valid_array",
 ];
 
 pub fn fault(class: &str, k: usize) -> Fault {
@@ -121,6 +126,29 @@ pub fn fault(class: &str, k: usize) -> Fault {
             x
         }
         "assign_unknown_variable" => f("zz_never_defined <- 1"),
+        "arity_function_few_after_correct_call" => {
+            let mut x = f(&format!("begin zzr{k}(1, 2); zzr{k}(3, 4); zzr{k}(5) end", k = k));
+            x.defs.push(format!("function zzr{}(a, b) -> a + b", k));
+            x
+        }
+        "arity_function_many_after_correct_call" => {
+            let mut x = f(&format!("begin zzr{k}(1, 2); zzr{k}(1, 2, 3) end", k = k));
+            x.defs.push(format!("function zzr{}(a, b) -> a + b", k));
+            x
+        }
+        "arity_method_after_correct_call" => f("begin let zzo = object begin function m(x) -> x; end; zzo.m(1); zzo.m(2); zzo.m(1, 2) end"),
+        "index_too_large_after_valid_access" => f("begin let zza = array(3, 0); zza[0]; zza[2]; zza[3] end"),
+        "unknown_method_after_known_method" => f("begin let zzo = object begin function m() -> 1; end; zzo.m(); zzo.nope() end"),
+        "unknown_field_after_known_field" => f("begin let zzo = object begin let a = 1; end; zzo.a; zzo.b end"),
+        "divide_by_zero_after_valid_division" => f("begin 4 / 2; 4 % 3; 4 / 0 end"),
+        "operand_kind_after_valid_operation" => f("begin 1 + 2; true & false; 1 + true end"),
+        "unknown_function_after_known_function" => {
+            let mut x = f(&format!("begin zzk{k}(); zz_undefined_function() end", k = k));
+            x.defs.push(format!("function zzk{}() -> 1", k));
+            x
+        }
+        "builtin_arity_after_valid_call" => f("begin let zza = array(2, 0); zza.get(0); zza.set(1, 5); zza.get() end"),
+        "size_negative_after_valid_array" => f("begin array(1, 0); array(0, 0); array(0 - 1, 0) end"),
         _ => f("zz_undefined_variable"),
     }
 }
